@@ -20,6 +20,16 @@ def model_input(case: str, out: str) -> str:
     return sc.strip_holds(case)      # where a scope object was constructed is invisible to the model (and must be to the code)
 
 
+
+def extra_obligations():
+    """`TaskGroupContext.run` (= ctx.spawn) regenerated from /repo's tasks.py as a MiniPy term: Lean re-checks that the new task
+    is created with a fresh snapshot of the spawner's context, `copy_context()` called exactly once at the spawn and handed over
+    as `context=` - what the `Tasks` model takes task creation to be"""
+    from harness import core, regen
+
+    return regen.check("spawn", core.REPO, core.LEAN)
+
+
 def corpus():
     return [
         # shared long-lived state instances on top of many short-lived root scopes
